@@ -491,8 +491,9 @@ def b_hashed_text(g, ti, nparts):
     return ""
 
 
-def b_round_robin(g, n, k, random_start, change_at=None, n2=0):
-    """fair cycle over an ascending list of n symbolic distinct ids from a symbolic start; optional list change"""
+def b_round_robin(g, n, k, random_start, change_at=None, n2=0, inplace=False):
+    """fair cycle over an ascending list of n symbolic distinct ids from a symbolic start; optional list change
+    (inplace: the caller updates the very list object it keeps passing, instead of passing a new one)"""
     ps = []
     for i in range(n):
         p = g.int(0, 2**31 - 1, "p")
@@ -529,6 +530,9 @@ def b_round_robin(g, n, k, random_start, change_at=None, n2=0):
                 if same:
                     g.assume(False)
                     return ""
+            if inplace:
+                ps[:] = ps2
+                ps2 = ps
             window = [rr.partition(None, ps2) for _ in range(k * n2)]
             cur = ps2
     finally:
@@ -574,7 +578,7 @@ def obligations(tier):
     obs = []
 
     def add(name, fn, timeout=60, **kw):
-        obs.append({"name": name, "module": M, "fn": fn, "kwargs": kw, "timeout": timeout if q else timeout * 4, "abstract_crc": False})
+        obs.append({"name": name, "module": M, "fn": fn, "kwargs": kw, "timeout": timeout * 5 if q else timeout * 12, "abstract_crc": False})
 
     for n in (0, 1, 3, 4) if q else (0, 1, 2, 3, 4, 5, 8):
         for npart in (1, 3):
@@ -590,6 +594,8 @@ def obligations(tier):
     for n, n2, at in [(2, 3, 1), (3, 2, 4), (3, 3, 2), (1, 2, 0)] + ([] if q else [(4, 2, 5), (2, 4, 3), (4, 4, 1)]):
         for rs in (False, True):
             add("round-robin list change n=%d->%d after %d random_start=%s" % (n, n2, at, rs), "b_round_robin", n=n, k=2, random_start=rs, change_at=at, n2=n2)
+    for n, n2, at in [(3, 4, 7), (4, 3, 5), (2, 2, 1)] + ([] if q else [(3, 4, 2), (2, 5, 6)]):
+        add("round-robin list changed in place n=%d->%d after %d" % (n, n2, at), "b_round_robin", n=n, k=2, random_start=False, change_at=at, n2=n2, inplace=True)
     for n, off in [(3, 1), (3, 2), (4, 3)]:
         add("round-robin unaligned window n=%d offset=%d" % (n, off), "b_round_robin_sliding", n=n, k=2, offset=off)
     return obs
